@@ -196,6 +196,13 @@ class SoapBinding(Binding):
             decoder = MultipartDecoder(
                 response.content, content_type, response.encoding or "utf-8"
             )
+            if not decoder.parts:
+                raise TransportError(
+                    "Server returned response (%s) with an empty multipart body"
+                    % response.status_code,
+                    status_code=response.status_code,
+                    content=response.content,
+                )
             content = decoder.parts[0].content
             if len(decoder.parts) > 1:
                 message_pack = MessagePack(parts=decoder.parts[1:])
